@@ -14,7 +14,8 @@
    Events:  [t |-> "resp",  c |-> client, v |-> kind, s |-> stream number]
             [t |-> "close", c |-> client, v |-> "",   s |-> 0]      Close() called on a publisher/reader
             [t |-> "cmd",   c |-> hook,   v |-> "start" | "stop", s |-> 0]   external command started / closed
-            [t |-> "static",c |-> "",     v |-> "start" | "stop", s |-> 0]   static source handler started / stopped *)
+            [t |-> "static",c |-> "",     v |-> "start" | "stop", s |-> 0]   static source handler started / stopped
+            [t |-> "data",  c |-> reader, v |-> publisher, s |-> 0]          a unit written by that publisher reached the reader *)
 EXTENDS VerifCommon
 
 CONSTANTS
@@ -25,6 +26,8 @@ CONSTANTS
     OnDemandPub,                 \* runOnDemand configured (source must be "publisher")
     Regex,                       \* the path comes from a regular-expression configuration
     Fallback,                    \* a fallback is configured
+    AlwaysAvail,                 \* alwaysAvailable: the stream exists for the whole life of the path; an
+                                 \* offline sub-stream feeds it while no publisher is attached
     MaxSteps,                    \* bound on the length of behaviours
     KeepHist,                    \* FALSE: do not record the history (walk generation)
     InitFailureTakesStreamDown   \* TRUE = the code; FALSE = the defect repaired in /repo: the stream stayed
@@ -52,12 +55,16 @@ NewPath ==
      hAvail    |-> FALSE,      \* onUnavailableHook set
      hOnline   |-> FALSE,      \* onOfflineHook set
      hDemand   |-> FALSE,      \* onUnDemandHook set
+     cur       |-> "none",     \* whose sub-stream feeds the stream: a publisher, "static", "offline" or "none"
      ev        |-> <<>>]
 
 \* path.run() before the loop: a static source that is not on demand is started at once
 StartPath(nstream) ==
     LET p == NewPath IN
-    IF HasStatic /\ ~OnDemandStatic
+    IF AlwaysAvail
+    THEN \* run(): setAvailable(nil, ...) before the loop; the offline sub-stream feeds the stream
+         Ev([p EXCEPT !.stream = nstream + 1, !.hAvail = TRUE, !.cur = "offline"], E("cmd", "available", "start", 0))
+    ELSE IF HasStatic /\ ~OnDemandStatic
     THEN Ev([p EXCEPT !.staticRun = TRUE], E("static", "", "start", 0))
     ELSE p
 
@@ -84,7 +91,7 @@ SetNotAvailable(st) ==
     LET a == SetOffline(st)
         b == CloseAll([a EXCEPT !.readers = {}], a.readers)
         c == Ev(Ev([b EXCEPT !.hAvail = FALSE], E("cmd", "available", "stop", 0)), E("cmd", "unavailable", "start", 0))
-    IN [c EXCEPT !.stream = 0]
+    IN [c EXCEPT !.stream = 0, !.cur = "none"]
 
 StaticStart(st) ==     \* onDemandStaticSourceStart
     Ev([st EXCEPT !.staticRun = TRUE, !.readyT = TRUE, !.od = "waiting"], E("static", "", "start", 0))
@@ -132,7 +139,9 @@ TimeoutHolds(st) ==
     LET a == AnswerDescribes([st EXCEPT !.dHold = <<>>], st.dHold, "err_timeout", 0)
     IN AnswerReaders([a EXCEPT !.rHold = <<>>], st.rHold, "err_timeout")
 
-ExecuteRemovePublisher(st) == [SetNotAvailable(st) EXCEPT !.source = "none"]
+ExecuteRemovePublisher(st) ==
+    IF AlwaysAvail THEN [SetOffline(st) EXCEPT !.source = "none", !.cur = "offline"]   \* StartOfflineSubStream
+    ELSE [SetNotAvailable(st) EXCEPT !.source = "none"]
 
 \* ------------------------------------------------------------------ the cases of runInner
 DoAddPublisher(st, p, n) ==
@@ -141,12 +150,13 @@ DoAddPublisher(st, p, n) ==
     ELSE LET a == IF st.source # "none"
                   THEN ExecuteRemovePublisher(Ev(st, E("close", st.source, "", 0)))
                   ELSE st
-             b == SetAvailable(a, n)
-             c == [b EXCEPT !.source = p]
+             b == IF AlwaysAvail THEN a ELSE SetAvailable(a, n)
+             c0 == [b EXCEPT !.source = p, !.cur = p]
+             c == IF AlwaysAvail THEN SetOnline(c0) ELSE c0
              d == IF OnDemandPub /\ c.od # "initial"
                   THEN PubScheduleClose([c EXCEPT !.readyT = FALSE]) ELSE c
              e == ConsumeOnHold(d)
-         IN Ev(e, Resp(p, "stream", n))
+         IN Ev(e, Resp(p, "stream", e.stream))
 
 \* a publisher whose sub-stream cannot be initialized (e.g. RTP packets of a packetization the
 \* server cannot decode): subStream.Initialize() fails AFTER setAvailable(); the stream that was
@@ -158,8 +168,8 @@ DoAddPublisherBad(st, p, n) ==
     ELSE LET a == IF st.source # "none"
                   THEN ExecuteRemovePublisher(Ev(st, E("close", st.source, "", 0)))
                   ELSE st
-             b == SetAvailable(a, n)
-             c == IF InitFailureTakesStreamDown THEN SetNotAvailable(b) ELSE b
+             b == IF AlwaysAvail THEN a ELSE SetAvailable(a, n)
+             c == IF ~AlwaysAvail /\ InitFailureTakesStreamDown THEN SetNotAvailable(b) ELSE b
          IN Ev(c, Resp(p, "err_init", 0))
 
 DoRemovePublisher(st, p) == IF st.source = p THEN ExecuteRemovePublisher(st) ELSE st
@@ -194,7 +204,7 @@ DoDescribe(st, d) ==
     ELSE Ev(st, Resp(d, "err_nostream", 0))
 
 DoStaticSetReady(st, n) ==
-    LET a == SetAvailable(st, n)
+    LET a == [SetAvailable(st, n) EXCEPT !.cur = "static"]
         b == IF OnDemandStatic THEN StaticScheduleClose([a EXCEPT !.readyT = FALSE]) ELSE a
         c == ConsumeOnHold(b)
     IN Ev(c, Resp("static", "ok", n))
@@ -210,6 +220,14 @@ DoReadyTimer(st) ==
 DoCloseTimer(st) ==
     IF OnDemandStatic THEN StaticStop(SetNotAvailable([st EXCEPT !.closeT = FALSE]))
     ELSE PubStop([st EXCEPT !.closeT = FALSE])
+
+\* a publisher writes one unit through the sub-stream handle it was given (data plane): it reaches
+\* the attached readers iff that sub-stream still feeds the stream
+RECURSIVE DataTo(_, _, _)
+DataTo(st, rs, p) ==
+    IF rs = {} THEN st
+    ELSE LET r == CHOOSE x \in rs : TRUE IN DataTo(Ev(st, E("data", r, p, 0)), rs \ {r}, p)
+DoWrite(st, p) == IF st.stream # 0 /\ st.cur = p THEN DataTo(st, st.readers, p) ELSE st
 
 \* the tail of run() after the loop ended
 DoTerminate(st) ==
@@ -237,6 +255,7 @@ Step(st0, in, n) ==
     CASE in.a = "AddPublisher"    -> MaybeIdleClose(DoAddPublisher(st, in.c, n))
       [] in.a = "AddPublisherBad" -> MaybeIdleClose(DoAddPublisherBad(st, in.c, n))
       [] in.a = "RemovePublisher" -> MaybeIdleClose(DoRemovePublisher(st, in.c))
+      [] in.a = "Write"           -> DoWrite(st, in.c)
       [] in.a = "AddReader"       -> MaybeIdleClose(DoAddReader(st, in.c))
       [] in.a = "RemoveReader"    -> MaybeIdleClose(DoRemoveReader(st, in.c))
       [] in.a = "Describe"        -> MaybeIdleClose(DoDescribe(st, in.c))
@@ -314,6 +333,9 @@ In(a, c) == [a |-> a, c |-> c]
 AddPublisher(p)    == pstat[p] = "idle" /\ (st.alive \/ ~confGone) /\ Do(In("AddPublisher", p))
 AddPublisherBad(p) == pstat[p] = "idle" /\ (st.alive \/ ~confGone) /\ SourceKind = "publisher" /\ Do(In("AddPublisherBad", p))
 RemovePublisher(p) == pstat[p] \in {"attached", "closed"} /\ Do(In("RemovePublisher", p))
+\* a publisher can write as long as it holds a handle: while attached, and also after it was replaced
+\* (closed) - that is the stale write the statement is about
+Write(p)           == pstat[p] \in {"attached", "closed"} /\ st.alive /\ Do(In("Write", p))
 AddReader(r)       == rstat[r] \in {"idle", "attached"} /\ (st.alive \/ ~confGone) /\ Do(In("AddReader", r))
 RemoveReader(r)    == rstat[r] \in {"attached", "closed"} /\ Do(In("RemoveReader", r))
 Describe(d)        == dstat[d] = "new" /\ (st.alive \/ ~confGone) /\ Do(In("Describe", d))
@@ -324,15 +346,16 @@ CloseTimer         == st.alive /\ st.closeT /\ Do(In("CloseTimer", "timer"))
 Terminate          == st.alive /\ ~confGone /\ Do(In("Terminate", "manager"))
 
 Init == /\ st = (IF Regex THEN Dead ELSE StartPath(0))
-        /\ nstream = 0
+        /\ nstream = (IF AlwaysAvail /\ ~Regex THEN 1 ELSE 0)
         /\ pstat = [p \in Pubs |-> "idle"]
         /\ rstat = [r \in Readers |-> "idle"]
         /\ dstat = [d \in Descs |-> "new"]
         /\ confGone = FALSE
         /\ steps = 0
-        /\ hist = <<>>
+        \* the events of the path's creation are the first entry of the history
+        /\ hist = <<[in |-> [a |-> "Init", c |-> "init"], ev |-> (IF Regex THEN <<>> ELSE StartPath(0).ev)]>>
 
-Next == \/ \E p \in Pubs : AddPublisher(p) \/ AddPublisherBad(p) \/ RemovePublisher(p)
+Next == \/ \E p \in Pubs : AddPublisher(p) \/ AddPublisherBad(p) \/ RemovePublisher(p) \/ Write(p)
         \/ \E r \in Readers : AddReader(r) \/ RemoveReader(r)
         \/ \E d \in Descs : Describe(d)
         \/ StaticReady \/ StaticNotReady \/ ReadyTimer \/ CloseTimer \/ Terminate
@@ -414,6 +437,13 @@ RECURSIVE MaxAttached(_, _, _)
 MaxAttached(att, ev, k) ==
     IF k > Len(ev) THEN Cardinality(att)
     ELSE Max(Cardinality(att), MaxAttached(AttachedAfter(att, <<ev[k]>>, 1), ev, k + 1))
+
+\* no data written by a replaced or removed publisher reaches (attached) readers afterwards
+C16_NoStaleData(h) ==
+    \A i \in 1..Len(h) :
+        (h[i].in.a = "Write" /\ h[i].in.c \notin HoldersUpTo(h, i - 1)) =>
+            \A k \in 1..Len(h[i].ev) :
+                ~(h[i].ev[k].t = "data" /\ h[i].ev[k].v = h[i].in.c /\ h[i].ev[k].c \in AttachedUpTo(h, i - 1))
 
 C18_ReaderLimit(h, maxReaders) ==
     maxReaders # 0 =>
@@ -554,7 +584,8 @@ Families == {<<"available", "unavailable">>, <<"online", "offline">>, <<"demand"
 \* (hist is hidden by the VIEW; the monitors are monotone in the history, so checking them on
 \*  the full history of every reachable state is what TLC does without the VIEW in the
 \*  smaller configurations, and on one representative history per view-state otherwise)
-MonC16 == C16_AtMostOneSource(hist) /\ C16_RejectedUnlessOverride(hist, Override) /\ C16_ClosedBeforeAttach(hist)
+MonC16 == /\ C16_AtMostOneSource(hist) /\ C16_RejectedUnlessOverride(hist, Override) /\ C16_ClosedBeforeAttach(hist)
+          /\ C16_NoStaleData(hist)
 MonC18 == C18_ReaderLimit(hist, MaxReaders) /\ C18_NoDoubleCount(hist) /\ C18_TeardownOnUnavailable(hist)
 MonC19 == /\ C19_AtMostOneResponse(hist) /\ C19_NoSpuriousResponse(hist)
           /\ C19_AnsweredWhenWaitEnds(hist) /\ C19_AnsweredWhenReady(hist)
